@@ -17,6 +17,7 @@ use crate::error::Result;
 
 /// Network name compliant with the [`crate::IotaDID`] method specification.
 #[derive(Clone, Hash, PartialEq, Eq, PartialOrd, Ord, Deserialize, Serialize)]
+#[serde(try_from = "String")]
 #[repr(transparent)]
 pub struct NetworkName(Cow<'static, str>);
 
